@@ -123,6 +123,29 @@ pub fn run(ctx: &Ctx) -> Outcome {
     let mut rep = run_sharded(ctx, |w, nw, rep| {
         let ls = LangSet::new();
         let mut rng = Rng::derive(ctx.seed, "C06", w as u64);
+        // bounded exhaustive part: every stream of up to 4 (thorough: 5) tokens over the small alphabet of each language
+        let (n_small, cut) = streams::for_each_small_stream(&ls.lex, if ctx.quick() { 4 } else { 5 }, w, nw, &|| ctx.elapsed() > ctx.budget_s * 0.5, &mut |code, toks| {
+            let mut any = false;
+            for &t in [0.0, 10.0].iter() {
+                let (n_occ, fail) = check_stream(&ls, code, toks, t);
+                any |= n_occ > 0;
+                rep.add("occurrences_checked", n_occ as u64);
+                if let Some(msg) = fail {
+                    let class = msg.split(':').next().unwrap_or("").chars().take(40).collect::<String>();
+                    rep.violation(
+                        &format!("{}:{}", code, class),
+                        jobj! {"kind" => "stream", "lang" => code, "threshold" => format!("{}", t), "tokens" => streams::stream_json(toks)},
+                        format!("[{} t={}] {} | stream: {}", code, t, msg, streams::show_stream(toks)),
+                    );
+                    break;
+                }
+            }
+            rep.eval(streams::stream_hash(code, toks) ^ 0xe4, any);
+        });
+        rep.add("exhaustive_small_alphabet_streams", n_small);
+        if cut {
+            rep.count("exhaustive_enumeration_cut_by_budget");
+        }
         for i in 0..(n_streams / nw as u64) {
             if i % 256 == 0 && ctx.over_budget() {
                 break;
@@ -158,7 +181,7 @@ pub fn run(ctx: &Ctx) -> Outcome {
     if !ctx.quick() {
         super::legs::fuzz_leg(ctx, &mut rep, 45);
     }
-    let rule = "cases = grammar-noise token streams (number words 41%, ordinal forms 8%, conjunction 6%, separator 5%, linking 8%, fillers 16%, punctuation 12%, zero 4%, 12% of number slots replaced by a complete spelled number), two thirds of them with whitespace/hyphen tokens, random case and random separation / not-a-number hints; each stream scanned at 9 thresholds (incl. inf, NaN, negative); non-trivial = stream for which at least one occurrence was reported and checked (span, word boundaries, numeral grammar, value = reading, ordinal flag <=> marker)";
+    let rule = "cases = every stream of 1..4 (thorough 1..5) tokens over a 16-word alphabet per language (one word per grammar / policy class; counter exhaustive_small_alphabet_streams) at thresholds 0 and 10, and grammar-noise token streams (number words 41%, ordinal forms 8%, conjunction 6%, separator 5%, linking 8%, fillers 16%, punctuation 12%, zero 4%, 12% of number slots replaced by a complete spelled number), two thirds of them with whitespace/hyphen tokens, random case and random separation / not-a-number hints; each stream scanned at 9 thresholds (incl. inf, NaN, negative); non-trivial = stream for which at least one occurrence was reported and checked (span, word boundaries, numeral grammar, value = reading, ordinal flag <=> marker)";
     finish(ctx, rep, rule, &["ordinal marker alphabets per language are taken from the property statement and the library documentation (en st/nd/rd/th(s), fr er/ère/ème(s), es/pt º ª ᵒˢ ᵃˢ (.ᵉʳ), it º ª, de '.', nl e)"], vec![])
 }
 
